@@ -22,6 +22,13 @@ worker of `Run` to its blocking points; the table of blocking points is regenera
   own packages or through a func value that it could NOT follow is listed in `Gen.C13.callsNotFollowed`, which must be
   empty; interface calls are the declared boundary (the list of interfaces is fixed here); every mutex the loops lock
   has only critical sections that cannot park their holder.
+* `C13_no_unjoined_goroutines` — no `go` statement reachable from a worker leaves a goroutine that is not joined before
+  the worker returns (`Gen.C13.goStmtsInWorkers = []`).  In the model such a statement is the point `spawn`: it is not
+  `guarded`, it leaves an *orphan*, and `finished` - the conclusion of `termination` - demands "all workers returned,
+  `Run` returned AND no orphan alive": the node shuts down with ALL its activity.  `spawn_witness`: with one un-joined
+  `go` statement `Run` returns while an activity of the node is still alive.
+* `C13_timer_loops` — every timer-driven loop re-arms its timer on every path back to its head (a loop that does not
+  still stops promptly but never fires again: not a shutdown defect, an activity that silently ends while running).
 * `C13_termination` — `termination` at full strength for BOTH worker sets of the current tree (aggregator and full
   node), any budget.
 * witnesses on small hand-written tables, one per kind of unguarded point, showing what each would cause:
@@ -113,6 +120,16 @@ theorem C13_mutex_regions :
     Gen.C13.mutexRegionsNonBlocking = true ∧ Gen.C13.mutexes.all (fun m => m.2.2) = true ∧
     (Gen.C13.points.all fun p => p.2.1 != 5 || p.2.2.2) = true := by decide
 
+/-- **No activity escapes the join:** no `go` statement reachable from a worker body starts a goroutine that is not joined
+before that worker returns (an errgroup whose `Wait` is reached, or a WaitGroup local to the function, counts as joined:
+the joined bodies are part of the worker's table).  Hence the generated tables have no `spawn` point and the `finished`
+of `C13_termination` (which includes "no orphan") speaks about everything the workers ever started. -/
+theorem C13_no_unjoined_goroutines :
+    Gen.C13.goStmtsInWorkers = [] ∧ (Gen.C13.points.all fun p => p.2.1 != 7) = true := by decide
+
+/-- every `for { select { … case <-t.C: … } }` loop with a `*time.Timer` re-arms it on every path back to the loop head -/
+theorem C13_timer_loops : Gen.C13.timerLoopsRearmOnEveryPath = true := by decide
+
 /-- **FULL statement for the current tree:** every blocking point of every worker of both modes is guarded and `errCh`
 has room for all its plain senders -/
 theorem C13_all_guarded :
@@ -189,7 +206,7 @@ def errWitness : Option St :=
 theorem dead_of (c : Cfg) (s : St)
     (hw : ∀ i mv, step c s (.work i mv) = none) (he : ∀ i mv, step c s (.elapse i mv) = none)
     (h1 : step c s .runErr = none) (h2 : step c s .runParent = none) (h3 : step c s .join = none)
-    (h4 : step c s .parentCancel = none) : Dead c s := by
+    (h4 : step c s .parentCancel = none) (h5 : step c s .orphanExit = none) : Dead c s := by
   intro a
   cases a with
   | work i mv => exact hw i mv
@@ -198,6 +215,7 @@ theorem dead_of (c : Cfg) (s : St)
   | runParent => exact h2
   | join => exact h3
   | parentCancel => exact h4
+  | orphanExit => exact h5
 
 /-- **blocking `errCh <-` from two workers onto the capacity-1 channel that `Run` reads at most once:** reachable,
 cancelled, not finished, and NO action at all is enabled any more — the second sender and `Run` hang for ever -/
@@ -212,12 +230,13 @@ theorem errSend_witness :
   have hl : (errWitness.map fun s => s.lvl .errCh) = some 1 := by decide
   have hp : (errWitness.map (·.phase)) = some .joining := by decide
   have hpc : (errWitness.map (·.parentCancelled)) = some true := by decide
-  rw [hs] at hc hf hws hl hp hpc hpr
-  simp only [Option.map_some, Option.some.injEq] at hc hf hws hl hp hpc hpr
+  have ho : (errWitness.map (·.orphans)) = some 0 := by decide
+  rw [hs] at hc hf hws hl hp hpc hpr ho
+  simp only [Option.map_some, Option.some.injEq] at hc hf hws hl hp hpc hpr ho
   refine ⟨s, hs, reach_exec errCfg errTable _ _ s Reach.init hs, hc, hf, ?_⟩
-  obtain ⟨ws, lvl, c, pc, ph⟩ := s
-  simp only at hc hws hl hp hpc hpr
-  subst hc hp hpc
+  obtain ⟨ws, lvl, c, pc, ph, orph⟩ := s
+  simp only at hc hws hl hp hpc hpr ho
+  subst hc hp hpc ho
   match ws, hws, hpr with
   | [w0, w1], hws, hpr =>
     simp only [List.map_cons, List.map_nil, List.cons.injEq, and_true] at hws hpr
@@ -236,6 +255,7 @@ theorem errSend_witness :
     · simp [step]
     · simp [step]
     · simp [step, allDone, h0, h1]
+    · simp [step]
     · simp [step]
 
 def chanTable : List (List BP) := [[.ctxSelect, .recv .headerInCh true], [.ctxSelect, .send .headerInCh false]]
@@ -260,12 +280,13 @@ theorem fullChannel_witness :
   have hl : (chanWitness.map fun s => s.lvl .headerInCh) = some 1 := by decide
   have hp : (chanWitness.map (·.phase)) = some .joining := by decide
   have hpc : (chanWitness.map (·.parentCancelled)) = some true := by decide
-  rw [hs] at hc hf hws hl hp hpc
-  simp only [Option.map_some, Option.some.injEq] at hc hf hws hl hp hpc
+  have ho : (chanWitness.map (·.orphans)) = some 0 := by decide
+  rw [hs] at hc hf hws hl hp hpc ho
+  simp only [Option.map_some, Option.some.injEq] at hc hf hws hl hp hpc ho
   refine ⟨s, hs, reach_exec chanCfg chanTable _ _ s Reach.init hs, hc, hf, ?_⟩
-  obtain ⟨ws, lvl, c, pc, ph⟩ := s
-  simp only at hc hws hl hp hpc
-  subst hc hp hpc
+  obtain ⟨ws, lvl, c, pc, ph, orph⟩ := s
+  simp only at hc hws hl hp hpc ho
+  subst hc hp hpc ho
   match ws, hws with
   | [w0, w1], hws =>
     simp only [List.map_cons, List.map_nil, List.cons.injEq, and_true] at hws
@@ -284,6 +305,7 @@ theorem fullChannel_witness :
     · simp [step]
     · simp [step]
     · simp [step, allDone, h0, h1]
+    · simp [step]
     · simp [step]
 
 def mixTable : List (List BP) := [[.ctxSelect, .send .errCh true], [.ctxSelect, .errSend]]
@@ -308,12 +330,13 @@ theorem mixedErr_witness :
   have hl : (mixWitness.map fun s => s.lvl .errCh) = some 1 := by decide
   have hp : (mixWitness.map (·.phase)) = some .joining := by decide
   have hpc : (mixWitness.map (·.parentCancelled)) = some true := by decide
-  rw [hs] at hc hf hws hl hp hpc
-  simp only [Option.map_some, Option.some.injEq] at hc hf hws hl hp hpc
+  have ho : (mixWitness.map (·.orphans)) = some 0 := by decide
+  rw [hs] at hc hf hws hl hp hpc ho
+  simp only [Option.map_some, Option.some.injEq] at hc hf hws hl hp hpc ho
   refine ⟨s, hs, reach_exec errCfg mixTable _ _ s Reach.init hs, hc, hf, ?_⟩
-  obtain ⟨ws, lvl, c, pc, ph⟩ := s
-  simp only at hc hws hl hp hpc
-  subst hc hp hpc
+  obtain ⟨ws, lvl, c, pc, ph, orph⟩ := s
+  simp only at hc hws hl hp hpc ho
+  subst hc hp hpc ho
   match ws, hws with
   | [w0, w1], hws =>
     simp only [List.map_cons, List.map_nil, List.cons.injEq, and_true] at hws
@@ -333,11 +356,42 @@ theorem mixedErr_witness :
     · simp [step]
     · simp [step, allDone, h0, h1]
     · simp [step]
+    · simp [step]
 
 /-- a loop that takes a mutex some critical section of which can park its holder / that waits for goroutines the table
 knows nothing about -/
 def lockTable : List (List BP) := [[.ctxSelect, .lock 0 false]]
 def joinTable : List (List BP) := [[.ctxSelect, .join false]]
+
+/-- a worker that starts an un-joined goroutine on every round (`go r.SubmitTxs()`) -/
+def spawnTable : List (List BP) := [[.ctxSelect, .recv .timer true, .spawn]]
+
+/-- the schedule: one round is spawned, the worker is back at its ctx select, the node is stopped, the worker returns,
+`Run` joins and returns -/
+def spawnWitness : Option St :=
+  exec errCfg (initSt spawnTable)
+    [.work 0 (.next .spawn), .work 0 (.next .ctxSelect), .parentCancel, .runParent, .work 0 .ret, .join]
+
+/-- **un-joined `go` statement:** the judgement rejects the table; a state is reachable in which every worker has returned
+and `Run` has returned - `wg.Wait()` was satisfied - while an activity the node started is still alive: not `finished`;
+nothing the node does can end it (only the environment's `orphanExit`) -/
+theorem spawn_witness :
+    allGuarded errCfg spawnTable = false ∧
+    ∃ s, spawnWitness = some s ∧ Reach errCfg spawnTable s ∧ s.cancelled = true ∧ allDone s.ws = true ∧
+      s.phase = .returned ∧ s.orphans = 1 ∧ finished s = false ∧
+      (exec errCfg s [.orphanExit]).map finished = some true := by
+  refine ⟨by decide, ?_⟩
+  have hsome : spawnWitness.isSome = true := by decide
+  obtain ⟨s, hs⟩ := Option.isSome_iff_exists.mp hsome
+  have h1 : (spawnWitness.map (·.cancelled)) = some true := by decide
+  have h2 : (spawnWitness.map fun s => allDone s.ws) = some true := by decide
+  have h3 : (spawnWitness.map (·.phase)) = some .returned := by decide
+  have h4 : (spawnWitness.map (·.orphans)) = some 1 := by decide
+  have h5 : (spawnWitness.map finished) = some false := by decide
+  have h6 : (spawnWitness.bind fun s => (exec errCfg s [.orphanExit]).map finished) = some true := by decide
+  rw [hs] at h1 h2 h3 h4 h5 h6
+  simp only [Option.map_some, Option.some.injEq, Option.bind_some] at h1 h2 h3 h4 h5 h6
+  exact ⟨s, hs, reach_exec errCfg spawnTable _ _ s Reach.init hs, h1, h2, h3, h4, h5, h6⟩
 
 /-- the static judgement rejects the two tables above (two plain senders for one slot; an unguarded send) -/
 theorem witnesses_rejected :
@@ -367,6 +421,7 @@ theorem C13_verdicts :
     stopsPromptly chanCfg chanTable [(1, .send .headerInCh false)] [.headerInCh] = false ∧
     stopsPromptly errCfg lockTable [(0, .lock 0 false)] [] = false ∧
     stopsPromptly errCfg joinTable [(0, .join false)] [] = false ∧
+    stopsPromptly errCfg spawnTable [(0, .spawn)] [] = false ∧
     stopsPromptly (cfg 4) aggProgs [(0, .lock 0 true), (0, .join true)] [] = true ∧
     stopsPromptly (cfg 4) aggProgs [(1, .send .txNotifyCh true)] [.txNotifyCh] = true := by decide
 
